@@ -24,6 +24,7 @@ import BB.Proofs.G6Eq
 import BB.Proofs.G6Forge
 import BB.Proofs.G6Desc
 import BB.Properties.C20
+import BB.Proofs.G10Output
 
 namespace BB.C19
 open BB BB.BP
@@ -2055,5 +2056,132 @@ end builders
 
 example : makeNamesUnique (["pi2pulse", "pi2pulse2", "a1b", "ramp"].map basename) =
     ["pi2pulse", "pi2pulse2", "a1b", "ramp"] := by decide +kernel
+
+end BB.C19
+
+/-! ## the read-back sequence and the output methods; read-back sequences under `+` (group G10) -/
+
+namespace BB.C19
+open BB BB.BP BB.Element BB.Sequence BB.C20
+
+/-- **the read-back sequence gives the same output for the instruments** (`roundtrip_seq_observables`
+    composed with the output methods): `_prepareForOutputting`, `outputForAWGFile`,
+    `outputForSEQXFile` and `outputForSEQXFileWithFlags` of the sequence read back from its own
+    description return exactly what they return for the original — the same waveforms, markers,
+    flags, sequencing lists, amplitudes, channel list, sequence name and deferred voltage-range
+    obligations, or the same exception.  (Via the congruences of `BB/Proofs/G10Output.lean`: the
+    output methods read the settings and the sequencing through look-ups only.) -/
+theorem roundtrip_seq_outputs (s : Sequence) (sr : Val) (hs : SeqOk s sr) (d : J) (hd : s.toDesc = .ok d) :
+    ∃ s', Sequence.ofDesc d = .ok s' ∧
+      s'.prepareForOutputting = s.prepareForOutputting ∧
+      s'.outputForAWGFile = s.outputForAWGFile ∧
+      s'.outputForSEQXFile = s.outputForSEQXFile ∧
+      s'.outputForSEQXFileWithFlags = s.outputForSEQXFileWithFlags := by
+  obtain ⟨s', hs', hdata, hqk, hq, hsp, hname⟩ := roundtrip_seq s sr hs d hd
+  have hlq : LookEq s'.sequencing s.sequencing := by
+    intro k
+    by_cases hk : k ∈ Dict.keys s.sequencing
+    · rw [hs.seqKeys] at hk
+      obtain ⟨pe, hpe, rfl⟩ := List.mem_map.mp hk
+      exact hq pe hpe
+    · have h1 := (Dict.get?_eq_none_iff s.sequencing k).mpr hk
+      have h2 := (Dict.get?_eq_none_iff s'.sequencing k).mpr (by rw [hqk]; exact hk)
+      rw [h1, h2]
+  have hrel : Dict.Rel EntRel s'.data s.data := by
+    rw [hdata]
+    exact Dict.Rel.refl _ _ (fun x _ => entRel_refl x)
+  have hperm : (Dict.keys s'.sequencing).Perm (Dict.keys s.sequencing) := by rw [hqk]
+  exact ⟨s', hs', G10.prepareForOutputting_congr s' s hrel hsp hperm,
+    G10.outputForAWGFile_congr s' s hrel hsp hlq hperm,
+    G10.outputForSEQXFile_congr s' s hrel hsp hlq hperm hname,
+    G10.outputForSEQXFileWithFlags_congr s' s hrel hsp hlq hperm hname⟩
+
+/-- the same without assumed side conditions: for every sequence built through the public API
+    (`SeqBuilt`) with sample rate, amplitudes and offsets set (`seqBuilt_ok`) the read-back sequence
+    gives the same `outputForAWGFile` / `outputForSEQXFile` / `outputForSEQXFileWithFlags` result -/
+theorem roundtrip_seq_outputs_built (s : Sequence) (hb : SeqBuilt s) (sr : Val)
+    (hsr : Dict.get? s.awgspecs "SR" = some (.val sr))
+    (hch : ∀ pe ∈ s.data, ∀ e, pe.2 = .el e → ∀ p ∈ e.chans, chanSR p.2 = .ok sr ∧
+      (∃ a, Dict.get? s.awgspecs (keyOf p.1 "amplitude") = some (.val a)) ∧
+      (∃ o, Dict.get? s.awgspecs (keyOf p.1 "offset") = some (.val o)))
+    (d : J) (hd : s.toDesc = .ok d) :
+    ∃ s', Sequence.ofDesc d = .ok s' ∧ s'.outputForAWGFile = s.outputForAWGFile ∧
+      s'.outputForSEQXFile = s.outputForSEQXFile ∧ s'.outputForSEQXFileWithFlags = s.outputForSEQXFileWithFlags := by
+  obtain ⟨s', h1, _, h3, h4, h5⟩ := roundtrip_seq_outputs s sr (seqBuilt_ok s hb sr hsr hch) d hd
+  exact ⟨s', h1, h3, h4, h5⟩
+
+/-- the example sequence meets `SeqOk` (named, for the witnesses below; non-vacuity of `roundtrip_seq_outputs`) -/
+theorem exSeq_ok : SeqOk exSeq (.num 10) := by
+  refine ⟨by decide, by decide, by decide, by decide, rfl, ?_⟩
+  intro pe hpe
+  refine ⟨exChans, exM, ?_, exValidate, by decide, ?_⟩
+  · simp only [exSeq, List.mem_cons, List.not_mem_nil, or_false] at hpe
+    rcases hpe with rfl | rfl <;> rfl
+  · intro p hp
+    refine ⟨exChans_ok p hp, ?_, ?_, ?_⟩
+    · simp only [exChans, List.mem_cons, List.not_mem_nil, or_false] at hp
+      rcases hp with rfl | rfl <;> decide
+    · simp only [exChans, List.mem_cons, List.not_mem_nil, or_false] at hp
+      rcases hp with rfl | rfl
+      · exact ⟨.num 2, by decide⟩
+      · exact ⟨.num 1, by decide⟩
+    · simp only [exChans, List.mem_cons, List.not_mem_nil, or_false] at hp
+      rcases hp with rfl | rfl <;> exact ⟨.num 0, by decide⟩
+
+/-- non-vacuity of `roundtrip_seq_outputs`: the example sequence (two positions, flags, a channel
+    delay, a filter compensation) has a description, and `outputForAWGFile` returns a package for it
+    with two deferred range obligations (the filtered channel) — so that equality is about packages,
+    not about a common exception; the SEQX methods raise ValueError for it (30 points are fewer than
+    the instrument's minimum of 2400), the "errors included" case -/
+example : exSeq.toDesc.toOption.isSome = true ∧
+    exSeq.outputForAWGFile.toOption.map (fun d => (d.pkg.isSome, d.thenErr, d.obligations.length)) = some (true, none, 2) ∧
+    (match exSeq.outputForSEQXFile with | .error e => some e | .ok _ => none) = some Err.value ∧
+    (match exSeq.outputForSEQXFileWithFlags with | .error e => some e | .ok _ => none) = some Err.value := by
+  decide +kernel
+
+/-- a one-channel blueprint of 2400 points (the minimum the AWG70000A accepts) -/
+def exBPL : BP := { segs := [{ name := "ramp", fn := exFn, args := [.num 0, .num 1], dur := .num 240 }], SR := .num 10 }
+def exChansL : Dict Chan ChEntry := [(Chan.int 1, ⟨.bp exBPL, some [1, 0, 2, 0]⟩)]
+def exML : Val × Rat := (.num 10, 240)
+
+/-- a one-position sequence long enough for the SEQX methods -/
+def exSeqL : Sequence :=
+  { data := [(1, .el ⟨exChansL, some exML⟩)], sequencing := [(1, ⟨0, 1, 0, 0, 0⟩)],
+    awgspecs := [("SR", .val (.num 10)), ("channel1_amplitude", .val (.num 2)), ("channel1_offset", .val (.num 0)),
+                 ("channel1_filtercompensation", .filt ⟨"HP", 1, .num 1, .none⟩)] }
+
+/-- the long example meets `SeqOk` (non-vacuity of `roundtrip_seq_outputs`, SEQX part) -/
+theorem exSeqL_ok : SeqOk exSeqL (.num 10) := by
+  have hval : Element.validate ⟨exChansL, none⟩ = .ok exML := by
+    have h : (Element.validate ⟨exChansL, none⟩).toOption = some exML := by decide +kernel
+    cases hv : Element.validate ⟨exChansL, none⟩ with
+    | error e => rw [hv] at h; cases h
+    | ok m => rw [hv] at h; simp only [Except.toOption, Option.some.injEq] at h; rw [h]
+  refine ⟨by decide, by decide, by decide, by decide, rfl, ?_⟩
+  intro pe hpe
+  refine ⟨exChansL, exML, ?_, hval, by decide, ?_⟩
+  · simp only [exSeqL, List.mem_cons, List.not_mem_nil, or_false] at hpe
+    rw [hpe]
+  · intro p hp
+    simp only [exChansL, List.mem_cons, List.not_mem_nil, or_false] at hp
+    subst hp
+    refine ⟨⟨⟨1, rfl⟩, exBPL, rfl, by unfold BP.Inv; decide +kernel, by unfold Inv2 NameOk; decide +kernel, ?_, by decide, ?_⟩,
+      by decide, ⟨.num 2, by decide⟩, ⟨.num 0, by decide⟩⟩
+    · intro s hs
+      simp only [exBPL, List.mem_cons, List.not_mem_nil, or_false] at hs
+      subst hs
+      exact ⟨fun h => absurd h (by decide), fun _ => ⟨by decide +kernel, by decide⟩⟩
+    · intro fl h
+      cases h
+      exact ⟨rfl, by decide⟩
+
+/-- ... and on it all three output methods return a package with one deferred range obligation (so
+    the SEQX equalities of `roundtrip_seq_outputs` are about packages too), the flags included -/
+example : exSeqL.toDesc.toOption.isSome = true ∧
+    exSeqL.outputForAWGFile.toOption.map (fun d => (d.pkg.isSome, d.thenErr, d.obligations.length)) = some (true, none, 1) ∧
+    exSeqL.outputForSEQXFile.toOption.map (fun d => (d.pkg.isSome, d.thenErr, d.obligations.length)) = some (true, none, 1) ∧
+    exSeqL.outputForSEQXFileWithFlags.toOption.map (fun d => (d.pkg.bind (·.flags), d.thenErr)) =
+      some (some [[[1, 0, 2, 0]]], none) :=
+  ⟨by decide +kernel, by decide +kernel, by decide +kernel, by decide +kernel⟩
 
 end BB.C19
